@@ -184,7 +184,9 @@ func runSnap(c SnapCase) *h.Result {
 	if err := os.MkdirAll(dir, 0o755); err != nil {
 		return h.Fail("harness: %s", err)
 	}
-	defer os.RemoveAll(dir)
+	if os.Getenv("C19_KEEP") == "" {
+		defer os.RemoveAll(dir)
+	}
 	kinds := map[string]bool{}
 	special := false
 	forms := make([]string, len(c.Forms))
